@@ -10,7 +10,8 @@ Driver of C18. One request per sheet:
 * `<a|f>` end rule (blank all / blank first), `<0|1>` ladder, `<probe>` a range key asked of every
   attribute, `<titles>` `,`-joined strings: the range keys asked of every ranged attribute
 * rule: `e:<D>` | `c:<str>:<ct>:<D|~>` | `r:<d|s>:<ct>:<0|1>`, joined by `;` (`-` = no rules);
-  default `D`: a `V` (constant), `k<n>` (a counter starting at `n`), `l` (`list`)
+  default `D`: a `V` (constant), `k<n>` (a counter starting at `n`), `K<n>` (such a counter shared with
+  optional attributes of the rule set whose columns are present: they never call it), `l` (`list`)
 * `readx …`: the rules field holds several rule sets `<numId>!<rules>` joined by `+`
   (`XlsTableReader(rules_1, …)`); reply: one token per row, the results of the rule sets joined by `&`
 * `V`: `N` | `i<int>` | `s<str>` | `bT` | `bF`
@@ -67,6 +68,7 @@ def showV : StdV → String
 def parseD : List Char → Option (Nat → StdV)
   | ['l'] => some fun _ => .list []
   | 'k' :: r => (intOf r).map fun n => fun k => .int (n + k)
+  | 'K' :: r => (intOf r).map fun n => fun k => .int (n + k)   -- a sequence shared with attributes read from cells
   | v => (parseV v).map fun x => fun _ => x
 
 def parseRule (s : List Char) : Option (Rule StdV) :=
@@ -139,7 +141,7 @@ def outOf (r : Except Err (List (Option (Obj StdV)))) : Out StdV :=
 
 def handle (line : String) : String :=
   match (splitWs line).map String.toList with
-  | [op, stop, ladder, numId, probe, titles, rules, sheet] =>
+  | [op, stop, ladder, numId, probe, titles, rulesTxt, sheet] =>
     match viaOf op with
     | none => "bad-op"
     | some 3 =>
@@ -148,7 +150,7 @@ def handle (line : String) : String :=
       match (if stop = ['a'] then some Stop.blankAll else if stop = ['f'] then some Stop.blankFirst else none),
             (if ladder = ['1'] then some true else if ladder = ['0'] then some false else none),
             parseStr probe, (if titles = ['='] then some [] else (splitCh ',' titles).mapM parseStr),
-            parseSets rules, parseSheet sheet with
+            parseSets rulesTxt, parseSheet sheet with
       | some stop, some ladder, some probe, some keys, some sets, some rows =>
         let out := iterTableM stdConv ⟨stop, ladder, sets⟩ (mkSheet rows)
         " ".intercalate (out.rows.map (fun res =>
@@ -160,7 +162,7 @@ def handle (line : String) : String :=
           (if ladder = ['1'] then some true else if ladder = ['0'] then some false else none),
           natOf numId, parseStr probe,
           (if titles = ['='] then some [] else (splitCh ',' titles).mapM parseStr),
-          (if rules = ['-'] then some [] else (splitCh ';' rules).mapM parseRule),
+          (if rulesTxt = ['-'] then some [] else (splitCh ';' rulesTxt).mapM parseRule),
           parseSheet sheet with
     | some stop, some ladder, some numId, some probe, some keys, some rules, some rows =>
       let cfg : Cfg StdV := ⟨stop, ladder, numId, rules, []⟩
@@ -168,7 +170,16 @@ def handle (line : String) : String :=
         | 0 => iterTable stdConv cfg (mkSheet rows)
         | 1 => outOf (readTable stdConv cfg (mkSheet rows))
         | _ => outOf (readList stdConv numId rules (mkSheet rows))
+      -- `after:<i>=<V>,…`: what the factories of optional attributes read from cells give on their next call
+      -- (a shared sequence `K<n>` belongs to the attribute that takes it: not reported here)
+      let sharedIdx := ((splitCh ';' rulesTxt).zipIdx.filter fun (t, _) =>
+        match splitCh ':' t with
+        | [_, _, _, 'K' :: _] => true
+        | _ => false).map (·.2)
+      let unused := (unusedDefaults (titlesOf (mkSheet rows)) 0 rules).filter fun iv => !sharedIdx.contains iv.1
       " ".intercalate (out.objs.map (showObj probe (sortDedup keys)) ++
+        (if unused.isEmpty then [] else
+          ["after:" ++ ",".intercalate (unused.map fun iv => toString iv.1 ++ "=" ++ showV iv.2)]) ++
         [match out.err with | none => "end" | some e => "err:" ++ e.name])
     | _, _, _, _, _, _, _ => "bad-op"
   | [['f','i','l','l'], stop, sheet] =>
